@@ -21,7 +21,7 @@ def job_numeric(item):
     def body(ex):
         nums = []
         for i in range(n):
-            x = SY.sym_number(ex, None)
+            x = SY.sym_number(ex, None, kinds=('pos', 'neg', 'float') if n <= 1 else ('float',))
             if x.kind == 'pos': ex.assume(z3.ULE(x.val.bv, LIM))
             if x.kind == 'neg': ex.assume(x.val.bv >= -LIM)
             nums.append(x)
@@ -151,7 +151,7 @@ def run(run):
     big = [j for j in jobs if max(len(l) for l in j[2]) > 60]
     for j in big:
         jobs.remove(j); name, lists = j[1], j[2]
-        k = max(range(len(lists)), key=lambda i: len(lists[i])); opts = lists[k]; nsh = 8
+        k = max(range(len(lists)), key=lambda i: len(lists[i])); opts = lists[k]; nsh = 12
         for sh in range(nsh):
             sub = opts[sh::nsh]
             if sub: jobs.append(('call', name, lists[:k] + [sub] + lists[k + 1:], dl, None))
@@ -160,9 +160,9 @@ def run(run):
         small = [l[:6] for l in U[name]]
         jobs.append(('call', name, small, dl, 'projection')); jobs.append(('call', name, small, dl, 'to_array'))
     jobs += [('num', f, 1, dl) for f in ('abs', 'ceil', 'floor')] + [('num', f, n, dl) for f in ('sum', 'avg') for n in range(0, (3 if quick else 4))]
-    run.bounds = {'argument tuples': f'for each of the 26 built-ins every tuple from per-position representative universes that satisfy the signature (arrays of <= {A} elements incl. duplicates and ties, strings incl. non-ASCII and astral, objects over {{a,b,é}}, '
+    run.bounds = {'argument tuples': f'for each of the 26 built-ins every tuple from per-position representative universes that satisfy the signature (arrays of <= {A} elements (<= 3 for sort, max, min and the by-functions) incl. duplicates and ties, strings incl. non-ASCII and astral, objects over {{a,b,é}}, '
                                      'numbers incl. negatives/fractions/integer-vs-float spellings, expression references @, a, b, length(@), to_number(@), abs(@), to_array(@), nosuch(@))',
-                  'numeric kernels': 'abs/ceil/floor over every serde_json::Number (any finite f64; integers with |x| <= 2^53); sum/avg over arrays of <= ' + ('2' if quick else '3') + ' such numbers, compared in IEEE double arithmetic (z3 Float64)',
+                  'numeric kernels': 'abs/ceil/floor/sum/avg of one serde_json::Number (any finite f64; integers with |x| <= 2^53); sum/avg over arrays of 2' + ('' if quick else '-3') + ' arbitrary finite doubles, compared in IEEE double arithmetic (z3 Float64)',
                   'nesting': 'each call also as the right-hand side of a projection and as an argument of another call (to_array)'}
     run.outside = [f'arrays longer than {A} (in particular > 20 elements, where std switches sorting algorithm)', 'integers beyond 2^53 in abs/ceil/floor (the implementation computes in f64; stated, not claimed)', 'strings outside the representative universe for the string predicates']
     run.assumes = ['harness/funcs.py is the function specification', 'sort/sort_by: slice::sort / sort_by are modelled as a stable sort w.r.t. the comparator, which is executed from the MIR']
